@@ -58,6 +58,10 @@ func c19RateSpecs(tier string) []*h.SeqSpec {
 						b.Count++
 						wantServed := b.Count <= n
 						var vs []h.Violation
+						// "warning headers to include with all responses": the refusal of a throttled request is a response
+						if ws := r.H.Values("Warning"); len(ws) != 1 || ws[0] != `299 - "verif warning"` {
+							vs = append(vs, h.V("warnings-on-all-responses", fmt.Sprintf("warning-header-missing:status-%d", r.Status), "the configured warning is not on the answer %s of request %d of %s (Warning headers %v)", r, b.Count, ip, ws))
+						}
 						switch {
 						case wantServed && r.Status != 200:
 							vs = append(vs, h.V("other-requests-unaffected", "request-within-limit-refused", "request %d of %s in its accounting second (limit %d) answered %s", b.Count, ip, n, r))
@@ -95,7 +99,7 @@ func c19RateSpecs(tier string) []*h.SeqSpec {
 				}
 				specs = append(specs, &h.SeqSpec{
 					Name: fmt.Sprintf("c19-ratelimit-%s%s-%d", store, map[string]string{"": "", "addresses": "-addresses"}[family], n),
-					Conf: &h.Conf{Name: store, Store: store, Mod: func(c *config.Config) { c.API.RateLimit = n }},
+					Conf: &h.Conf{Name: store, Store: store, Mod: func(c *config.Config) { c.API.RateLimit = n; c.API.Warnings = []string{"verif warning"} }},
 					Init: func(w *h.World) { w.M = &c19Model{B: map[string]*c19Bucket{}} },
 					Ops:  ops,
 					Model: func(w *h.World) string {
@@ -282,9 +286,9 @@ func init() {
 	delete(h.Checks, "C19rate")
 	h.Checks["C19"] = func(tier string) int {
 		rep := h.NewReport("C19", tier, "model_checking")
-		rep.Rule = "part 1 (rate limit): breadth-first search over all sequences (bounded depth) of requests from address A, from B and from A through X-Forwarded-For, and virtual time steps 400 ms, 1 s, 1 s + 1 ns, 11 s, for RateLimit in {1,2,3}, against the documented fixed window (more than one second since the first counted request starts a new window); a second family varies the client address (another port of the same address, IPv6 addresses with shared leading groups, an address that is a prefix of another, an X-Forwarded-For list): one window per source IP. " +
+		rep.Rule = "part 1 (rate limit): breadth-first search over all sequences (bounded depth) of requests from address A, from B and from A through X-Forwarded-For, and virtual time steps 400 ms, 1 s, 1 s + 1 ns, 11 s, for RateLimit in {1,2,3}, against the documented fixed window (more than one second since the first counted request starts a new window); a second family varies the client address (another port of the same address, IPv6 addresses with shared leading groups, an address that is a prefix of another, an X-Forwarded-For list): one window per source IP; a warning is configured and must be on every answer, the 429 included. " +
 			"part 1b (defaults): config.SetDefaults on every {unset,true,false} assignment of the 9 boolean fields (3^9) with the numeric fields all unset / all set, and on every assignment of the 7 numeric fields to {0, negative, positive} values with three boolean patterns, against the documented defaults (an explicit non-zero value is never overridden). " +
-			"part 2 (flag space, inside a build of cmd/olareg with the real cobra command): every assignment of the 8 boolean serve flags to true / false plus each flag alone not given (quick: 273 assignments) or to {not given, true, false} (thorough: 6561) x store type {dir, mem}: the configuration the server holds and a fixed probe script (reads, referrers, blob upload, session, manifest and artifact push, manifest and blob delete, directory snapshot) are compared with a table written from the flag help texts and config.go; warnings (0-2), rate-limit, gc durations (not given / negative / positive), 'collection disabled' surviving shutdown; " +
+			"part 2 (flag space, inside a build of cmd/olareg with the real cobra command): every assignment of the 8 boolean serve flags to true / false plus each flag alone not given (quick: 273 assignments) or to {not given, true, false} (thorough: 6561) x store type {dir, mem}: the configuration the server holds and a fixed probe script, every answer of which - served or refused - must carry the warning given with --warning (reads, referrers, blob upload, session, manifest and artifact push, manifest and blob delete, directory snapshot) are compared with a table written from the flag help texts and config.go; warnings (0-2), rate-limit, gc durations (not given / negative / positive), 'collection disabled' surviving shutdown; " +
 			"part 3 (termination): a real SIGTERM after every prefix of a 6-request push history (incl. an open session): serve returns nil, the store is closed, a second run serves everything acknowledged from a valid layout; non-trivial = configuration points"
 		rep.Assume = []string{"TLS flags, address binding and verbosity are not covered", "the signal is delivered between requests (the Run/Shutdown hand-shake race before the listener is registered is not explored)"}
 		h.RunSeqInto(rep, "C19rate", tier, time.Time{})
